@@ -492,7 +492,9 @@ def oracle(items, pq, cache, version):
     return len(batches)
 
 
-def run_history(steps, pq, ocache=None):
+def run_history(steps, pq, ocache=None, only=None):
+    """only = {"q":…, "v":…, "fresh": {field: value}}: compare nothing but the observations of that query, against the
+    given fresh-interpreter values (used while shrinking: no further interpreters are started)."""
     """Execute a session script in THIS process; compare every observation with the fresh-interpreter oracle.
     -> {"observations": n, "mismatches": [...], "children": n}"""
     handles = {}
@@ -508,14 +510,21 @@ def run_history(steps, pq, ocache=None):
     def flush(only_parquet):
         nonlocal children, pending
         now = [p for p in pending if (not only_parquet) or "parquet" in sp.flags(p[1][0]).get("tags", [])]
+        if only is not None:
+            now = [p for p in now if p[1] == (only["q"], only.get("v"))]
+            pending = [p for p in pending if p[1] == (only["q"], only.get("v")) and p not in now]
         if not now:
             return
-        children += oracle([p[1] for p in now], pq, ocache, version)
+        if only is None:
+            children += oracle([p[1] for p in now], pq, ocache, version)
         for idx, qv, obs, ver in now:
-            ref = ocache[_okey(qv, ver)]
+            ref = only["fresh"] if only is not None else ocache[_okey(qv, ver)]
+            if only is not None:
+                obs = {k: v for k, v in obs.items() if k in ref}
             for k, val in obs.items():
                 if json.dumps(val, sort_keys=True) != json.dumps(ref.get(k), sort_keys=True):
-                    mismatches.append({"step": idx, "q": qv[0], "v": qv[1], "field": k, "session": _short(val), "fresh": _short(ref.get(k))})
+                    mismatches.append({"step": idx, "q": qv[0], "v": qv[1], "field": k, "session": _short(val), "fresh": _short(ref.get(k)),
+                                       "fresh_full": ref.get(k)})
         pending = [p for p in pending if p not in now]
 
     for idx, st in enumerate(steps):
@@ -614,19 +623,19 @@ def _sig(m):
 _ORACLE = {}  # fresh-interpreter values are pure: shared by all sessions of one check run
 
 
-def _run_session(steps, pq_root):
+def _run_session(steps, pq_root, only=None):
     import os
 
     pq = os.path.join(pq_root, "ds")
-    res = _run_session_raw(steps, pq)
+    res = _run_session_raw(steps, pq, only)
     _ORACLE.update(res.pop("oracle_new", {}))
     return res
 
 
-def _run_session_raw(steps, pq):
+def _run_session_raw(steps, pq, only=None):
     # one fixed hash seed for the session and (inherited) for its oracle interpreters: C15 compares histories, not
     # hash seeds (the seed dependence of fused-plan names is C08's finding)
-    return sp.run_child({"kind": "history", "steps": steps, "pq": pq, "oracle": _ORACLE}, env={"PYTHONHASHSEED": "0"}, timeout=1500)
+    return sp.run_child({"kind": "history", "steps": steps, "pq": pq, "oracle": _ORACLE, "only": only}, env={"PYTHONHASHSEED": "0"}, timeout=1500)
 
 
 def _shrink(steps, mismatch, pq_root, budget):
@@ -634,8 +643,13 @@ def _shrink(steps, mismatch, pq_root, budget):
     tgt = steps[mismatch["step"]]
     best = steps[: mismatch["step"] + 1]
 
+    # names of parquet reads contain the files' mtime: only results/divisions/len can be re-checked without a new oracle
+    only = None
+    if mismatch["field"] in ("result", "divisions", "opt_divisions", "npartitions", "len", "meta") and "fresh_full" in mismatch:
+        only = {"q": mismatch["q"], "v": mismatch["v"], "fresh": {mismatch["field"]: mismatch["fresh_full"]}}
+
     def fails(cand):
-        res = _run_session(cand, pq_root)
+        res = _run_session(cand, pq_root, only)
         return any(m["q"] == mismatch["q"] and m["field"] == mismatch["field"] for m in res["mismatches"])
 
     # 1. only steps about queries sharing a cache-relevant tag with the failing query (plus rewrites)
@@ -681,7 +695,7 @@ def support(ctx, broken):
     items = _items(ctx)
     pq_root = tempfile.mkdtemp(prefix="dxverif-c15-")
     try:
-        n_sessions = 2 if ctx.quick else 10
+        n_sessions = 1 if ctx.quick else 10
         n_steps = 80 if ctx.quick else 260
         seen_sigs = set()
         for si in range(n_sessions):
@@ -706,7 +720,7 @@ def support(ctx, broken):
                 if key in seen_sigs:
                     continue
                 seen_sigs.add(key)
-                small = _shrink(steps, m, pq_root, budget=(4 if len(sup.failures) == 0 else 1) if ctx.quick else 25)
+                small = _shrink(steps, m, pq_root, budget=(3 if len(sup.failures) == 0 else 1) if ctx.quick else 25)
                 sup.failures.append(Failure(sig=sig, case={"steps": small, "expect": {"q": m["q"], "field": m["field"]}},
                                             detail=f"query {m['q']} (variation {m['v']}) observation {m['field']}: in session {m['session']} vs fresh interpreter {m['fresh']}; "
                                                    f"history shrunk to {len(small)} steps"))
